@@ -43,14 +43,16 @@ class C20(Check):
     technique = ("Coq proof over an executable model of the range-for loop over enumerate()/reverse() (iterator = position, explicit fuel, "
                  "container threaded through the loop; invariant proofs by induction) + extraction-based differential test against the C++ "
                  "under AddressSanitizer for every container kind and value category")
-    level_text = ("Twelve theorems in Coq for ALL element types, ranges of ANY length (also empty) and ANY update function: the range-for over "
+    level_text = ("Fourteen theorems in Coq for ALL element types, ranges of ANY length (also empty) and ANY update function: the range-for over "
                   "enumerate(c) ends within length+1 tests of `b != e` (so after exactly length(c) iterations), never dereferences a non-element, "
                   "visits exactly (0,c0),(1,c1),... and leaves the container as [f 0 c0; f 1 c1; ...] when the body assigns f index value through "
                   "the proxy (map g c for an index-blind body, c for a read-only one); the same for owned (temporary / moved / initializer-list) "
                   "ranges; reverse(c) visits rev c and leaves map f c, for containers with reverse iterators and for built-in arrays iterated "
                   "through a vector of references; an adaptor has no state that survives between uses (the loop is a function of the range only): the same "
                   "adaptor iterated twice, loops nested over one container, an adaptor created before the elements were changed in place, and repeated "
-                  "begin() != end() tests give what a fresh adaptor gives. The model (iterator = position, index incremented with it, end detected by position only, "
+                  "begin() != end() tests give what a fresh adaptor gives; two ranges alive at once are independent: whatever the body of a loop over an "
+                  "adaptor of a does with another container b (e.g. a whole loop over an adaptor of b), the outer loop visits exactly a's elements and "
+                  "a ends as the pointwise image, and b is unchanged unless that code writes it. The model (iterator = position, index incremented with it, end detected by position only, "
                   "reverse iterator with base b denoting element b-1) is tied to /repo by running the extracted model and the real adaptors (ASan/"
                   "UBSan build of the working tree) on every container kind x value category x length 0..5 (0..6 thorough) x several element "
                   "lists and comparing visits, per-visit address identity with the container's own elements, and contents after writing through "
@@ -59,14 +61,19 @@ class C20(Check):
                   "under AddressSanitizer): C++ overload resolution among the enumerate()/reverse() overloads (T&, const T&, T&&, initializer_list&&, "
                   "T(&)[N]), lifetime extension of the temporary adaptor (and of the container moved into it) over the whole range-for statement, "
                   "the containers' own iterators (std::vector/array/list/map, std::reverse_iterator, fixed_vector's rbegin/rend), "
-                  "std::reference_wrapper; aliasing is modelled as 'the write lands at the visited position' and observed as address identity. "
+                  "std::reference_wrapper; that adaptors share no hidden state (in the model two ranges are two independent lists) is tied to the code by "
+                  "the reuse and multi-container cases only; aliasing is modelled as 'the write lands at the visited position' and observed as address identity. "
                   "The correspondence is bounded-exhaustive over kinds/modes/lengths with sampled element values, not proved")
     rule = ("all (adaptor, container kind, value category, length) combinations that exist in C++: adaptor in {enumerate, reverse}, kind in {vector, "
             "std::array, list, map, built-in array, initializer_list, fixed_vector}, category in {lvalue with write-through, const lvalue, temporary "
             "created inside the for statement, std::move of a local}, length 0..5 (0..6 thorough), each with several element lists (ascending, "
             "all-equal, random distinct from VERIF_SEED); plus REUSE scenarios on vector/list/map/fixed_vector, lengths 0..5(6): one adaptor object iterated "
             "twice (over an lvalue and owning a temporary), enumerate-in-enumerate and reverse-in-enumerate over the same container, adaptor created "
-            "before an in-place change of all elements, begin()!=end() asked before/after a loop and through stored iterators; a case is non-trivial when the range has at least one element; distinct = distinct case line")
+            "before an in-place change of all elements, begin()!=end() asked before/after a loop and through stored iterators; and MULTI-CONTAINER scenarios with two / three different "
+            "containers of one kind, element type and length alive at once (built-in arrays of equal extent, std::array, vector, list, fixed_vector; "
+            "lvalue and owning adaptors): every nesting of {reverse, enumerate} in {reverse, enumerate} over different containers with and without "
+            "a write through the outer element, three-level reverse nesting, two stored adaptors created one after the other and iterated in either "
+            "order with and without write-through, always followed by reading ALL containers; a case is non-trivial when the range has at least one element; distinct = distinct case line")
     modelled_note = ("modelled, not verified: overload resolution, lifetime of temporaries, the underlying containers' iterators and "
                      "std::reverse_iterator (a position / a base position in the model)")
 
@@ -94,6 +101,21 @@ class C20(Check):
                             lists.append(rng.sample(range(-50, 1000), n))
                         for l in lists:
                             yield "re %s %s %s %s" % (sc, kind, mode, wl(l)), "reuse-" + sc
+        # SEVERAL containers of one kind / element type / length alive at once (state shared between adaptors)
+        nest = ["n" + o + i + w for o in "re" for i in "re" for w in "-w"]
+        stored = ["s" + p + q + k + w for p in "re" for q in "re" for k in "12" for w in "-w"]
+        for kind in ("carr", "arr", "vec", "list", "fv"):
+            top = 4 if kind in ("carr", "arr") else maxn
+            for mode in ("l" if kind == "carr" else "lo"):
+                for sc in nest + stored + ["n3"]:
+                    if mode == "o" and sc.endswith("w"):
+                        continue
+                    for n in range(1 if kind == "carr" else 0, top + 1):
+                        if sc == "n3" and n > 3:
+                            continue
+                        for _ in range(1 if tier == "quick" else 6):
+                            ls = [rng.sample(range(-50, 1000), n) for _ in range(3 if sc == "n3" else 2)]
+                            yield "mc %s %s %s %s" % (sc, kind, mode, " ".join(wl(l) for l in ls)), "multi-" + ("n3" if sc == "n3" else sc[0])
         # longer ranges for the kinds whose length is not a template parameter
         for _ in range(60 if tier == "quick" else 1500):
             ad = rng.choice(("en", "rv"))
@@ -106,15 +128,31 @@ class C20(Check):
         coqchk_extra(self, ctx, ["Nitro.Properties.Properties_C20"])
 
     def nontrivial(self, case, mobs, iobs):
-        return case.split()[-1] != "."
+        w = case.split()
+        if w[0] == "mc":
+            return w[-1] != "." and len(set(w[4:])) == len(w[4:])    # non-empty, pairwise different contents
+        return w[-1] != "."
 
     def signature(self, case, mobs, iobs):
         w = case.split()
         n = 0 if w[-1] == "." else w[-1].count(",") + 1
+        if w[0] == "mc":
+            return tuple(w[:4]) + (min(n, 7), iobs.split(" ")[0])
         return tuple(w[:-1]) + (min(n, 7), iobs.split(" ")[0])
 
     def shrink(self, case):
         w = case.split()
+        if w and w[0] == "mc":
+            ls = [x.split(",") if x != "." else [] for x in w[4:]]
+            for i in range(len(ls[0])):      # drop position i in every container (they must keep one length)
+                yield " ".join(w[:4] + [",".join(l[:i] + l[i + 1:]) or "." for l in ls])
+            for k, l in enumerate(ls):
+                for i, e in enumerate(l):
+                    if len(e) > 1:
+                        small = str(k * 10 + i)
+                        if len(small) < len(e):
+                            yield " ".join(w[:4] + [",".join(m[:i] + [small] + m[i + 1:]) if j == k else (",".join(m) or ".") for j, m in enumerate(ls)])
+            return
         if len(w) not in (4, 5) or w[-1] == ".":
             return
         el = w[-1].split(",")
